@@ -230,14 +230,45 @@ class MpfDom:
     }
 
 
+class _Poison:
+    """exact-domain stand-in for NaN/Inf (division by zero): propagates through arithmetic, compares false, and is
+    discarded by if_else_zero when the branch is not selected - exactly like a NaN in an unselected branch in C"""
+    __slots__ = ()
+
+    def __repr__(self):
+        return "POISON"
+
+    def __float__(self):
+        return float("nan")
+
+
+POISON = _Poison()
+
+
 def _q_inv(a):
     if a == 0:
-        raise ZeroDivisionError("exact division by zero")
+        return POISON
     return 1 / a
 
 
+def _pz1(fn):
+    def g(a):
+        if a is POISON:
+            return POISON
+        return fn(a)
+    return g
+
+
+def _pz2(fn):
+    def g(a, b):
+        if a is POISON or b is POISON:
+            return POISON
+        return fn(a, b)
+    return g
+
+
 class FracDom:
-    """exact rationals.  Division by zero raises ZeroDivisionError (caller decides what that means)."""
+    """exact rationals.  Division by zero yields POISON (see above)."""
     name = "fraction"
 
     def const(self, c):
@@ -250,7 +281,7 @@ class FracDom:
         return float(x)
 
     def truth(self, x):
-        return x != 0
+        return x is not POISON and x != 0
 
     def boolv(self, b):
         return Fraction(1) if b else Fraction(0)
@@ -260,7 +291,7 @@ class FracDom:
     @staticmethod
     def _sqrt(a):
         if a < 0:
-            raise NotRational("sqrt of negative")
+            return POISON
         n, d = a.numerator, a.denominator
         rn, rd = math.isqrt(n), math.isqrt(d)
         if rn * rn == n and rd * rd == d:
@@ -268,18 +299,18 @@ class FracDom:
         raise NotRational("sqrt(%s)" % a)
 
     un = {
-        OP_ASSIGN: lambda a: a, OP_NEG: lambda a: -a, OP_SQ: lambda a: a * a, OP_TWICE: lambda a: 2 * a,
-        OP_FABS: abs, OP_INV: _q_inv,
-        OP_SIGN: lambda a: Fraction((a > 0) - (a < 0)),
-        OP_FLOOR: lambda a: Fraction(math.floor(a)), OP_CEIL: lambda a: Fraction(math.ceil(a)),
+        OP_ASSIGN: lambda a: a, OP_NEG: _pz1(lambda a: -a), OP_SQ: _pz1(lambda a: a * a), OP_TWICE: _pz1(lambda a: 2 * a),
+        OP_FABS: _pz1(abs), OP_INV: _pz1(_q_inv),
+        OP_SIGN: _pz1(lambda a: Fraction((a > 0) - (a < 0))),
+        OP_FLOOR: _pz1(lambda a: Fraction(math.floor(a))), OP_CEIL: _pz1(lambda a: Fraction(math.ceil(a))),
     }
     bi = {
-        OP_ADD: lambda a, b: a + b, OP_SUB: lambda a, b: a - b, OP_MUL: lambda a, b: a * b,
-        OP_DIV: lambda a, b: a * _q_inv(b),
+        OP_ADD: _pz2(lambda a, b: a + b), OP_SUB: _pz2(lambda a, b: a - b), OP_MUL: _pz2(lambda a, b: a * b),
+        OP_DIV: _pz2(lambda a, b: POISON if b == 0 else a / b),
     }
 
 
-FracDom.un[OP_SQRT] = FracDom._sqrt
+FracDom.un[OP_SQRT] = _pz1(FracDom._sqrt)
 
 
 def _q_pow(a, b):
@@ -287,12 +318,13 @@ def _q_pow(a, b):
         e = b.numerator
         if e >= 0:
             return a ** e
-        return _q_inv(a) ** (-e)
+        i = _q_inv(a)
+        return POISON if i is POISON else i ** (-e)
     raise NotRational("pow with non-integer exponent")
 
 
-FracDom.bi[OP_POW] = _q_pow
-FracDom.bi[OP_CONSTPOW] = _q_pow
+FracDom.bi[OP_POW] = _pz2(_q_pow)
+FracDom.bi[OP_CONSTPOW] = _pz2(_q_pow)
 
 FLOAT, MPF, FRACTION = FloatDom(), MpfDom(), FracDom()
 
@@ -318,6 +350,11 @@ def run(prog: Prog, args, dom=FLOAT, want_sig=True):
             outs[o[0]][o[1]] = w[i[0]]
         elif op in COMPARISONS:
             a, b = w[i[0]], w[i[1]]
+            if a is POISON or b is POISON:
+                t = (op == OP_NE)
+                sig.append(1 if t else 0)
+                w[o[0]] = dom.boolv(t)
+                continue
             if op == OP_LT:
                 t = a < b
             elif op == OP_LE:
@@ -338,8 +375,10 @@ def run(prog: Prog, args, dom=FLOAT, want_sig=True):
             w[o[0]] = dom.boolv(dom.truth(w[i[0]]) or dom.truth(w[i[1]]))
         elif op == OP_FMIN or op == OP_FMAX:
             a, b = w[i[0]], w[i[1]]
-            if a != a:
+            if a is POISON or a != a:
                 r, t = b, 0
+            elif b is POISON:
+                r, t = a, 1
             elif b != b:
                 r, t = a, 1
             elif op == OP_FMIN:
